@@ -164,6 +164,15 @@ def _inserted_weights(ctx, p):
     return out
 
 
+def _same_key(a, b):
+    """Two key arguments denote the same key (modulo Rc::clone / borrow views)."""
+    def core(t):
+        while isinstance(t, tuple) and t and t[0] == 'call' and str(t[1]).split('::')[-1] in ('clone', 'borrow', 'as_ref', 'deref') and t[2]:
+            t = t[2][0]
+        return t
+    return core(a) == core(b)
+
+
 def rule_flow_unsync(ctx):
     r = RuleResult('FLOW-counters(unsync)', 'on every path of every unsync cache function: a removed map entry gives back exactly its '
                    'stored weight (-) to weighted_size and 1 (-) to entry_count (directly or through a (count, weight) accumulator that '
@@ -237,6 +246,24 @@ def rule_flow_unsync(ctx):
                 n_rem += 1
                 isw = weight_terms_of(E)
                 ws_ok = has_atom(fws, -1, isw)
+                # the slot was overwritten earlier on this path (HashMap::insert(key, NEW) returned Some(OLD)): what the counters hold for the
+                # key is OLD's weight -- NEW, which this removal takes out of the map, has not been counted yet
+                keyarg_ = e[2][1] if len(e[2]) > 1 else None
+                for e0 in p.events:
+                    if e0 is e:
+                        break
+                    if e0[0] == 'call' and e0[1] == 'std::collections::HashMap::insert' and len(e0[2]) > 1 and keyarg_ is not None and _same_key(e0[2][1], keyarg_):
+                        res0 = e0[6] if len(e0) > 6 else ('call', e0[1], e0[2])
+                        if any(c == ('discr', res0) and v == 1 for c, v in p.conds):
+                            OLD = ('payload', res0, 'Some', 0)
+                            old_back = has_atom(fws, -1, weight_terms_of(OLD))
+                            r.instance(function=nid, event='removal-of-overwritten-slot', replaced_entry_weight_given_back=old_back, new_entry_weight_given_back=ws_ok)
+                            if ws_ok or not old_back:
+                                pend(nid, 'uncounted-weight-given-back', 'weighted_size', 'a path overwrites the entry of a key (HashMap::insert returned the old entry) and then removes the key: '
+                                     'it gives back %s instead of the REPLACED entry\'s weight, which is what weighted_size holds for the key' % (
+                                         'the weight of the entry it just stored' if ws_ok else 'nothing'),
+                                     where=ctx.where(nid, e[3]), expected='weighted_size -= old_entry.policy_weight()')
+                            ws_ok = old_back or ws_ok
                 ec_ok = has_atom(fec, -1, is_one)
                 via = 'direct'
                 if not (ws_ok and ec_ok) and comps:
